@@ -104,7 +104,7 @@ func runC13Case(dir, line string) string {
 	os.MkdirAll(dir, 0755)
 	away := dir + ".away"
 	a := &log.RollingFileAppender{FileDir: dir, FileName: "app.log", Rotation: log.TimeRotation{Interval: time.Duration(iv) * time.Second}, MaxAge: 24,
-		Layout: &log.TextLayout{}}
+		Layout: rawMsgLayout{}}
 	var trace, notes []string
 	guardOp := func(name string, fn func()) {
 		done := make(chan string, 1)
@@ -165,6 +165,20 @@ func runC13Case(dir, line string) string {
 		case op[0] == 's':
 			ms, _ := strconv.Atoi(op[1:])
 			time.Sleep(time.Duration(ms) * time.Millisecond)
+		case op[0] == 'a': // Append of an event that was stamped <lag> seconds ago (queued, or a lagging clock hook): a<id>:<size>:<lag>
+			p := strings.Split(op[1:], ":")
+			size, _ := strconv.Atoi(p[1])
+			lag, _ := strconv.Atoi(p[2])
+			sec := alignMidSecond()
+			e := log.GetEvent()
+			e.Level = log.InfoLevel
+			e.Time = time.Now().Add(-time.Duration(lag) * time.Second)
+			e.Fields = []log.Field{log.Msg(strings.TrimSuffix(string(mkLine(p[0], size)), "\n"))}
+			guardOp("Append", func() { a.Append(e) })
+			if time.Now().Unix() != sec {
+				notes = append(notes, "straddle")
+			}
+			trace = append(trace, fmt.Sprintf("w%s@%d", p[0], sec))
 		case op[0] == 'w':
 			p := strings.Split(op[1:], ":")
 			size, _ := strconv.Atoi(p[1])
@@ -271,4 +285,19 @@ func runC13Concurrent(cases []string, out *bufio.Writer, _ []string) {
 	for _, r := range results {
 		fmt.Fprintln(out, r)
 	}
+}
+
+// rawMsgLayout writes the message field of an event as one line (so that appended events look like raw writes in the files).
+type rawMsgLayout struct{}
+
+func (rawMsgLayout) ToBytes(e *log.Event) []byte {
+	for _, f := range e.Fields {
+		if f.Key == log.MsgKey {
+			var b bytes.Buffer
+			enc := log.NewTextEncoder(&b, "||")
+			f.Encode(enc)
+			return append(bytes.TrimPrefix(b.Bytes(), []byte(log.MsgKey+"=")), '\n')
+		}
+	}
+	return []byte("\n")
 }
